@@ -21,6 +21,19 @@ Record wf (ms : list move) (free : list reg) : Prop := mkWf {
   wf_free_zero : ~ In ZERO free;
   wf_zero : forall m, In m ms -> m_dst m = ZERO -> m_src m = ZERO }.
 
+(* The hypotheses under which the algorithm with ALL repairs (C20-1 .. C20-5) is proved: `wf` without
+   wf_ssa and wf_width -- several SSA values may live in one register and every operand has its own width.
+   (`zero` as a repeated destination is accepted by the repaired code and swept by the harness, but the
+   theorems keep wa_dsts / wa_zero.) *)
+Record wf_all (ms : list move) (free : list reg) : Prop := mkWfAll {
+  wa_kinds : forall m, In m ms -> is_float (m_src m) = is_float (m_dst m);
+  wa_dsts : NoDup (map m_dst ms);
+  wa_free : forall f m, In f free -> In m ms -> f <> m_src m /\ f <> m_dst m;
+  wa_free_zero : ~ In ZERO free;
+  wa_zero : forall m, In m ms -> m_dst m = ZERO -> m_src m = ZERO }.
+Lemma wf_wf_all ms free : wf ms free -> wf_all ms free.
+Proof. intros [A B _ _ C D E]. constructor; assumption. Qed.
+
 (* what a move of width w transports: a 32-bit float move only promises the low 32 bits
    (fmv.s NaN-boxes), every other move the whole register *)
 Definition view (m : move) (x : Z) : Z :=
